@@ -371,8 +371,36 @@ func runC02(rc *RunCtx, i int) {
 	facts := c.w.Facts()
 	qr := r.Split("queries")
 	nq := nQueries(rc.Tier, 40, 60)
+	var qs []*bs.Query
 	for k := 0; k < nq; k++ {
-		q := facts.Query(qr)
+		qs = append(qs, facts.Query(qr))
+	}
+	// entry sweep (as in C01, smaller): single-condition lookups of entries the stored rows
+	// really produce, so exactness is also checked entry by entry (number and bool literals,
+	// case-folded words, tokens that only one row has)
+	sr := r.Split("sweep")
+	for _, t := range sampleStrings(sr, facts.Tokens, nQueries(rc.Tier, 40, 200)) {
+		if utf8.ValidString(t) {
+			qs = append(qs, bs.NewQuery().Token(t).Build())
+			rc.Res.Count("sweep_queries", 1)
+		}
+	}
+	for _, f := range sampleStrings(sr, facts.Fields, nQueries(rc.Tier, 12, 60)) {
+		if utf8.ValidString(f) && f != "" {
+			qs = append(qs, bs.NewQuery().Field(f).Build())
+			rc.Res.Count("sweep_queries", 1)
+		}
+	}
+	for n, j := range sr.Perm(len(facts.Pairs)) {
+		if n >= nQueries(rc.Tier, 40, 200) {
+			break
+		}
+		if p := facts.Pairs[j]; utf8.ValidString(p[0]) && utf8.ValidString(p[1]) && p[0] != "" {
+			qs = append(qs, bs.NewQuery().FieldToken(p[0], p[1]).Build())
+			rc.Res.Count("sweep_queries", 1)
+		}
+	}
+	for k, q := range qs {
 		e := c.w.Eng[qr.Intn(len(c.w.Eng))]
 		if refsem.CheckRegex(regexOf(q)) == refsem.RegexInvalid {
 			continue
